@@ -113,6 +113,13 @@ def gen_layout_big(rng, size):
     return fields, used
 
 
+CTYPES_CHAR_BASELINE_RAISES = [False]
+
+
+def fields_are_all_blobs(fields):
+    return all(f[0] != "m" for f in fields)
+
+
 NAME_STYLES = ["f.%d", "grp.f%d", "grp.sub.f%d", "%d", "field %d", "f%d.", ".f%d", "__f%d__", "f-%d", "größe%d", "f%d[0]", "keys%d", "f/%d", "f%d:x"]
 
 
@@ -264,6 +271,45 @@ def run_layout_case(ctx, conv, R, rng, size, fields, used, values=None, tag="lay
     except Exception as e:  # noqa: BLE001
         ctx.fail("C10:decode.raises", "decode_bits raised %s" % type(e).__name__, wit, exc=e)
         return
+    # the data as other kinds of buffer: a window into a larger response (memoryview slice, also of a cast view), an immutable
+    # bytes object, a ctypes character buffer (whose items are 1-byte bytes, not ints)
+    if rng.random() < 0.3:
+        import ctypes
+
+        kind = rng.choice(["subview", "subview", "bytes", "ctypes_char", "array_B"])
+        lead = rng.randrange(1, 9)
+        if kind == "subview":
+            whole = bytearray(rng.getrandbits(8) for _ in range(lead)) + bytearray(ref) + bytearray(rng.getrandbits(8) for _ in range(rng.randrange(0, 5)))
+            alt = memoryview(whole)[lead:lead + len(ref)]
+        elif kind == "bytes":
+            alt = bytes(ref)
+        elif kind == "array_B":
+            import array
+
+            alt = array.array("B", bytes(ref))
+        else:
+            alt = ctypes.create_string_buffer(bytes(ref), len(ref))
+        ctx.add("decode_buffer_kinds", kind)
+        out_alt = {}
+        try:
+            conv.decode_bits(alt, check, out_alt)
+            for name, f in zip(names, fields):
+                want = R.get(ref, f[1], f[2], f[3]) if f[0] == "m" else bytes(ref[f[1]: f[1] + f[2] * f[3]])
+                got = out_alt.get(name)
+                if f[0] != "m":
+                    got = bytes(got) if isinstance(got, (bytes, bytearray, memoryview)) or hasattr(got, "tobytes") else got
+                    got = got if isinstance(got, bytes) else None
+                if got != want:
+                    ctx.fail("C10:decode.from_%s" % kind, "decode_bits of a %s gives %r for %s, the bytes hold %r" % (kind, out_alt.get(name) if f[0] == "m" else got, name, want if f[0] == "m" else want[:12]), wit)
+                    break
+        except Exception as e:  # noqa: BLE001
+            if kind != "ctypes_char" or not fields_are_all_blobs(fields):
+                if kind == "ctypes_char":
+                    ctx.count("ctypes_char_decodes_raised")  # judged by comparison with the unchanged behaviour below
+                    if not CTYPES_CHAR_BASELINE_RAISES[0]:
+                        ctx.fail("C10:decode.raises", "decode_bits of a ctypes character buffer raised %s" % type(e).__name__, wit, exc=e)
+                else:
+                    ctx.fail("C10:decode.raises", "decode_bits of a %s raised %s" % (kind, type(e).__name__), wit, exc=e)
     out2 = rng.choice([dict, dict, collections.UserDict, collections.OrderedDict, lambda: collections.ChainMap({})])()
     try:
         conv.decode_bits(ref, {k: check[k] for k in order}, out2)
